@@ -144,8 +144,25 @@ def coincident_unused_param(reg, i):
     for n, pid in t["params"]:
         if pid is None: continue
         if any(re.search(r"(?<![A-Za-z0-9_])%s(?![A-Za-z0-9_])" % re.escape(n), f.get("type_name") or "") for f in fields): continue
-        if any(pid in (set(regdsl.reachable(reg, [f["ty"]], with_params=False)) | {f["ty"]}) for f in fields): return True
+        if any(pid in _type_arguments_inside(reg, f["ty"]) for f in fields): return True
     return False
+def _type_arguments_inside(reg, i):
+    """ids the generator meets as *arguments* strictly inside the type expression of id i (elements of sequences, arrays,
+    tuples, compact, and the generic arguments of path types - not the fields of named types, and not i itself: a field
+    whose own id equals the parameter's is decided by its recorded type name, correctly)"""
+    out = set(); work = [i]; seen = set()
+    while work:
+        j = work.pop()
+        if j in seen or j >= len(reg): continue
+        seen.add(j); d = reg[j]["def"]; k = d[0]
+        if k == "sequence": nxt = [d[1]]
+        elif k == "array": nxt = [d[2]]
+        elif k == "tuple": nxt = list(d[1])
+        elif k == "compact": nxt = [d[1]]
+        elif k in ("composite", "variant"): nxt = [p for _, p in reg[j]["params"] if p is not None]
+        else: nxt = []
+        out.update(nxt); work += nxt
+    return out
 def classify(v):
     w = v["what"]
     if v.get("kind") != "lockstep": return v.get("kind", "other")
